@@ -27,6 +27,8 @@
 
    State = disk part (listed = pack-names, upload = suspended packs in upload/)
    + the writer object part (wg, mcp, newrevs, broken).
+   (Since /repo 8028393 suspend and abort unregister resumed packs from _packs_by_name, so the
+   object keeps no memory of the tokens it resumed.)
      mcp      the knit indices' "missing compression parents" memory of THIS
               repository object (environment: bzrformats _KnitGraphIndex): a key is
               added when a delta whose basis is absent is inserted, removed when
@@ -37,10 +39,6 @@
               abort/suspend/commit); a fresh object has [].
      newrevs  revisions._index.key_dependencies new keys (cleared by
               clear_key_dependencies, refilled by scan_unvalidated_index at resume)
-     resident names this object registered in _packs_by_name when it resumed them;
-              _suspend_write_group and _abort_write_group do not unregister them, so
-              resuming such a name again on the same object hits the AssertionError of
-              add_pack_to_memory (a successful commit re-registers them as normal packs)
      broken   _commit_write_group failed after its refusal checks (inside
               Pack.finish): the write group is half torn down; the model makes no
               claim about later operations of that object. *)
@@ -81,7 +79,6 @@ Record state := St {
   wg : option wgstate;
   mcp : list N;
   newrevs : list N;
-  resident : list name;
   broken : bool }.
 
 Definition visible (s : state) : list N := List.concat (listed s).
@@ -148,14 +145,15 @@ Section Machine.
   (* ---- _resume_write_group: tokens in order; first unusable one aborts ---- *)
   Inductive rs := RsOk (r : list name) | RsUnresumable (r : list name) | RsAssert.
   (* _resume_pack per token: malformed / NoSuchFile -> UnresumableWriteGroup (the packs resumed so
-     far, [acc], are aborted = deleted from upload/); already registered -> AssertionError *)
-  Fixpoint resume_toks (up resid : list name) (acc : list name) (ts : list tok) : rs :=
+     far, [acc], are aborted = deleted from upload/); a token repeated in the list -> AssertionError of
+     add_pack_to_memory (not generated by the harness: a malformed token list) *)
+  Fixpoint resume_toks (up : list name) (acc : list name) (ts : list tok) : rs :=
     match ts with
     | [] => RsOk acc
     | TName n :: ts' =>
         if negb (nmem n up) then RsUnresumable acc
-        else if nmem n resid || nmem n acc then RsAssert
-        else resume_toks up resid (acc ++ [n]) ts'
+        else if nmem n acc then RsAssert          (* the same token twice in one list *)
+        else resume_toks up (acc ++ [n]) ts'
     | TBad :: _ => RsUnresumable acc
     end.
 
@@ -165,7 +163,7 @@ Section Machine.
     | Start =>   (* Repository.start_write_group + _start_write_group *)
         match wg s with
         | Some _ => (s, RErr EBzrError)                 (* already in a write group *)
-        | None => (St (listed s) (upload s) (Some (WG [] [])) (mcp s) (newrevs s) (resident s) false, ROk)
+        | None => (St (listed s) (upload s) (Some (WG [] [])) (mcp s) (newrevs s) false, ROk)
         end
     | Ins k =>   (* insert_record_stream / add_* of one record into the new pack *)
         match wg s with
@@ -173,12 +171,12 @@ Section Machine.
         | Some w =>
             (St (listed s) (upload s) (Some (WG (wnew w ++ [k]) (wres w)))
                 (mcp_after_insert s k)
-                (if kind_eqb (kind_of C k) KRev then newrevs s ++ [k] else newrevs s) (resident s) false, ROk)
+                (if kind_eqb (kind_of C k) KRev then newrevs s ++ [k] else newrevs s) false, ROk)
         end
     | Abort =>   (* Repository.abort_write_group; PackRepository._abort_write_group *)
         match wg s with
         | None => (s, RErr EBzrError)                   (* mismatched lock context and write group *)
-        | Some w => (St (listed s) (nremove_all (wres w) (upload s)) None (mcp s) [] (resident s) false, ROk)
+        | Some w => (St (listed s) (nremove_all (wres w) (upload s)) None (mcp s) [] false, ROk)
         end
     | Suspend => (* PackRepository.suspend_write_group; _suspend_write_group *)
         match wg s with
@@ -187,20 +185,20 @@ Section Machine.
             let toks := wres w ++ (if wnew w then [] else [wnew w]) in
             let up := if wnew w then upload s
                       else if nmem (wnew w) (upload s) then upload s else upload s ++ [wnew w] in
-            (St (listed s) up None (mcp s) [] (resident s) false, RToks toks)
+            (St (listed s) up None (mcp s) [] false, RToks toks)
         end
     | Resume ts => (* Repository.resume_write_group; PackRepository._resume_write_group *)
         match wg s with
         | Some _ => (s, RErr EBzrError)
         | None =>
-            match resume_toks (upload s) (resident s) [] ts with
+            match resume_toks (upload s) [] ts with
             | RsOk r => (St (listed s) (upload s) (Some (WG [] r))
                             (mcp s ++ missing_comp (visible s ++ List.concat r) (List.concat r))
-                            (revs_of (List.concat r)) (resident s ++ r) false, ROk)
+                            (revs_of (List.concat r)) false, ROk)
             | RsUnresumable r =>
-                (St (listed s) (nremove_all r (upload s)) None (mcp s) [] (resident s ++ r) false,
+                (St (listed s) (nremove_all r (upload s)) None (mcp s) [] false,
                  RErr EUnresumable)
-            | RsAssert => (St (listed s) (upload s) (wg s) (mcp s) (newrevs s) (resident s) true,
+            | RsAssert => (St (listed s) (upload s) (wg s) (mcp s) (newrevs s) true,
                            RErr EAssertion)
             end
         end
@@ -211,30 +209,25 @@ Section Machine.
             if negb (match mcp s with [] => true | _ => false end) then (s, RErr ECheck)
             else if is_gc && negb (check_new_inventories s) then (s, RErr ECheck)
             else if negb (refs_ok (view s) (wnew w) && forallb (refs_ok (view s)) (wres w))
-            then (St (listed s) (upload s) (wg s) (mcp s) (newrevs s) (resident s) true, RErr ECheckFinish)
+            then (St (listed s) (upload s) (wg s) (mcp s) (newrevs s) true, RErr ECheckFinish)
             else (St (listed s ++ (if wnew w then [] else [wnew w]) ++ wres w)
-                     (nremove_all (wres w) (upload s)) None (mcp s) []
-                     (nremove_all (wres w) (resident s)) false, ROk)
+                     (nremove_all (wres w) (upload s)) None (mcp s) [] false, ROk)
         end
     | Reopen =>  (* a fresh Repository object on the same directory *)
         match wg s with
         | Some _ => (s, RErr EBzrError)
-        | None => (St (listed s) (upload s) None [] [] [] false, ROk)
+        | None => (St (listed s) (upload s) None [] [] false, ROk)
         end
     | AbortF sup =>
-        (* _abort_write_group when NewPack.abort() raises: the ExitStack callbacks still remove the
-           new pack's indices and clear _new_pack; Repository.abort_write_group clears _write_group
-           and re-raises unless suppress_errors.  The exception leaves _abort_write_group BEFORE the
-           loop over the resumed packs: with resumed packs the object keeps them in its indices and
-           in _resumed_packs (no claim is made about it: broken) *)
+        (* _abort_write_group when every delete on upload/ raises: all clean-up steps run from one
+           ExitStack (since /repo 8028393): the new pack's and the resumed packs' indices are removed,
+           the resumed packs are unregistered, _new_pack / _resumed_packs cleared;
+           Repository.abort_write_group clears _write_group and re-raises unless suppress_errors.
+           Nothing could be deleted: the resumed packs are still suspended in upload/ *)
         match wg s with
         | None => (s, RErr EBzrError)
-        | Some w =>
-            let r := if sup then ROk else RErr ETransport in
-            match wres w with
-            | [] => (St (listed s) (upload s) None (mcp s) [] (resident s) false, r)
-            | _ :: _ => (St (listed s) (upload s) (wg s) (mcp s) (newrevs s) (resident s) true, r)
-            end
+        | Some w => (St (listed s) (upload s) None (mcp s) [] false,
+                     if sup then ROk else RErr ETransport)
         end
     | SuspendF =>
         (* _suspend_write_group failing in NewPack.finish/abort: the exception propagates, the write
@@ -242,7 +235,7 @@ Section Machine.
            the harness then aborts and the oracle checks that nothing leaks *)
         match wg s with
         | None => (s, RErr ENotInWriteGroup)
-        | Some _ => (St (listed s) (upload s) (wg s) (mcp s) (newrevs s) (resident s) true, RErr ETransport)
+        | Some _ => (St (listed s) (upload s) (wg s) (mcp s) (newrevs s) true, RErr ETransport)
         end
     end.
 
@@ -294,7 +287,7 @@ Section Machine.
     end.
 End Machine.
 
-Definition init : state := St [] [] None [] [] [] false.
+Definition init : state := St [] [] None [] [] false.
 
 (* ---------- the two concrete catalogs used by the correspondence run ----------
    (the harness builds its source repositories from the same table and checks at
